@@ -1,9 +1,61 @@
-(** C12 - chase_work_stealing_deque: property theorems (statements only; proofs live in Proof/). *)
-From Coq Require Import NArith.
-From XV Require Import Base.Word gen.UtilsGen Proof.UtilsGenOk.
+(** C12 - chase_work_stealing_deque: property theorems (statements only; proofs live in Proof/).
+    [get_entry], [grow], [find_last_bit_set] are GENERATED from the C++ source on every run. *)
+From Coq Require Import NArith List.
+From XV Require Import Base.Word gen.UtilsGen gen.GrowingArrayGen Model.ChaseDefs Proof.UtilsGenOk Proof.ChaseIndex.
 Local Open Scope N_scope.
 
 (** the loop of utils::find_last_bit_set, as generated from the source, computes the bit length *)
 Theorem C12_find_last_bit_set_gen : forall v, v < 2 ^ 64 -> find_last_bit_set 65 v = Some (flbs v).
 Proof. exact find_last_bit_set_ok. Qed.
 Print Assumptions C12_find_last_bit_set_gen.
+
+(** index -> (bucket, slot) is injective on one capacity window, for every capacity 2^k up to 2^30 *)
+Theorem C12_get_entry_inj : forall k cap i1 i2,
+  1 <= k <= 30 -> cap = 2 ^ k -> i1 < 2 ^ 64 -> i2 < 2 ^ 64 ->
+  get_entry i1 cap = get_entry i2 cap <-> i1 mod cap = i2 mod cap.
+Proof. exact get_entry_inj. Qed.
+Print Assumptions C12_get_entry_inj.
+
+(** ... and stays inside the allocated buckets *)
+Theorem C12_get_entry_bounds : forall k cap idx,
+  1 <= k <= 30 -> cap = 2 ^ k -> idx < 2 ^ 64 ->
+  fst (get_entry idx cap) <= k /\
+  (0 < fst (get_entry idx cap) -> snd (get_entry idx cap) < 2 ^ (fst (get_entry idx cap) - 1)) /\
+  (fst (get_entry idx cap) = 0 -> snd (get_entry idx cap) = 0).
+Proof. exact get_entry_bounds. Qed.
+Print Assumptions C12_get_entry_bounds.
+
+(** grow() at ANY index offset: every live index reads after the growth what it read before *)
+Theorem C12_grow_preserves : forall k cap fuel bk mem bottom top mem' bk' cap',
+  1 <= k <= 29 -> cap = 2 ^ k -> top <= bottom -> bottom - top <= cap -> bottom < 2 ^ 63 ->
+  (N.to_nat cap < fuel)%nat ->
+  grow fuel bk cap mem bottom top = Some (mem', bk', cap') ->
+  cap' = 2 * cap /\ bk' = wadd 64 bk 1 /\
+  forall i, top <= i < bottom ->
+    mget mem' (fst (get_entry i cap')) (snd (get_entry i cap')) =
+    mget mem (fst (get_entry i cap)) (snd (get_entry i cap)).
+Proof. exact grow_preserves. Qed.
+Print Assumptions C12_grow_preserves.
+
+Theorem C12_grow_total : forall k cap fuel bk mem bottom top,
+  1 <= k <= 29 -> cap = 2 ^ k -> top <= bottom -> bottom - top <= cap -> bottom < 2 ^ 63 ->
+  (N.to_nat cap < fuel)%nat -> grow fuel bk cap mem bottom top <> None.
+Proof. exact grow_total. Qed.
+Print Assumptions C12_grow_total.
+
+(** the copy list used by the step-level model equals the generated big-step [grow] *)
+Theorem C12_grow_moves_gen : forall k cap fuel bk mem bottom top mem' bk' cap',
+  1 <= k <= 29 -> cap = 2 ^ k -> top <= bottom -> bottom - top <= cap -> bottom < 2 ^ 63 ->
+  (N.to_nat cap < fuel)%nat ->
+  grow fuel bk cap mem bottom top = Some (mem', bk', cap') ->
+  fold_left (fun m (p : (N * N) * (N * N)) =>
+               mset m (fst (snd p)) (snd (snd p)) (mget m (fst (fst p)) (snd (fst p))))
+            (grow_moves cap bottom top) mem = mem'.
+Proof. exact grow_moves_gen_eq. Qed.
+Print Assumptions C12_grow_moves_gen.
+
+(** the root of known finding C12-steal-overlaps-grow: old and new capacity share the lower half *)
+Theorem C12_lower_half_shared : forall k cap idx,
+  1 <= k <= 29 -> cap = 2 ^ k -> idx mod (2 * cap) < cap -> get_entry idx (2 * cap) = get_entry idx cap.
+Proof. exact get_entry_lower_half. Qed.
+Print Assumptions C12_lower_half_shared.
